@@ -148,7 +148,7 @@ pub fn from_json(j: &J) -> Result<Scn, String> {
 pub fn size(s: &Scn) -> (usize, usize) {
     match s {
         Scn::C11(s) => (
-            s.execs.iter().map(|e| e.order.len() + 2).sum(),
+            s.execs.iter().map(|e| e.script.len() + 2).sum(),
             s.files.iter().map(|(_, c)| c.text().len()).sum(),
         ),
         Scn::Hist(s) => hist::size(s),
